@@ -305,9 +305,11 @@ class Report:
         os.replace(tmp, os.path.join(ev_dir, f"{self.pid}.json"))
         for k in self.known:
             print(f"KNOWN-FINDING: property={self.pid} {k['what']} [{k['key']}]")
+        rep_dir = os.path.join(os.environ.get("VERIF_EVIDENCE_DIR",
+                                              os.path.join(VERIF, "evidence")), "replay")
+        for old in glob.glob(os.path.join(rep_dir, f"{self.pid}-*.json")):
+            os.remove(old)          # replay records of earlier runs of this property
         if self.violations:
-            rep_dir = os.path.join(os.environ.get("VERIF_EVIDENCE_DIR",
-                                                  os.path.join(VERIF, "evidence")), "replay")
             os.makedirs(rep_dir, exist_ok=True)
             for i, v in enumerate(self.violations):
                 path = os.path.join(rep_dir, f"{self.pid}-{i}.json")
